@@ -34,34 +34,13 @@ def node_at(tree, path):
     return tree
 
 
-def spec_at(spec, tree, path):
-    """the real spec object at a node path of the realised tree"""
-    for i in path:
-        k = tree['k']
-        if i == 0:
-            return None
-        if k in ('tup', 'list'):
-            spec = spec[i - 1] if k == 'tup' else spec[0]
-        elif k == 'pipe':
-            spec = spec.steps[i - 1]
-        elif k == 'dict':
-            spec = spec['k%d' % i]
-        elif k in ('coal', 'coalskip'):
-            spec = spec.subspecs[i - 1]
-        elif k in ('or', 'and'):
-            spec = spec.children[i - 1]
-        elif k == 'not':
-            spec = spec.child
-        elif k == 'switch':
-            spec = spec.cases[(i - 1) // 2][(i - 1) % 2]
-        elif k in ('auto', 'fill', 'match', 'spec'):
-            spec = spec.spec
-        elif k == 'iter':
-            spec = spec.subspec
-        elif k == 'mdict':
-            spec = list(spec.d.items())[0][i - 1]
-        tree = tree['c'][i - 1]
-    return spec
+def spec_at(obs, path):
+    """the real spec object built for a node path of the realised tree (recorded at construction: the
+    harness never walks the library's spec objects through their attributes)"""
+    path = tuple(path)
+    if path and path[-1] == 0:
+        return None
+    return obs['prebuilt'][1].by_path[path]
 
 
 def tgt_repr(t, spec, tree):
@@ -75,7 +54,7 @@ ERR_CLASS = {'new': 'PlantedError', 'same': 'PlantedError', 'copy': 'PlantedErro
              'coal': 'CoalesceError', 'switch': 'MatchError', 'not': 'MatchError', 'mdict': 'MatchError'}
 
 
-def expected_projection(st, spec):
+def expected_projection(st, obs):
     tree = st['tree']
     out = []
     for l in st['res']['lines']:
@@ -83,9 +62,9 @@ def expected_projection(st, spec):
             nd = node_at(tree, l['eorg'])
             out.append((l['d'], 'E', ERR_CLASS[nd['k']] + (':%d' % l['en'] if l['en'] else '')))
         elif l['kind'] == 'T':
-            out.append((l['d'], 'T', tgt_repr(l['tgt'], spec, tree)))
+            out.append((l['d'], 'T', tgt_repr(l['tgt'], None, tree)))
         else:
-            out.append((l['d'], 'S', payload(spec_at(spec, tree, l['path']))))
+            out.append((l['d'], 'S', payload(spec_at(obs, l['path']))))
     return out
 
 
@@ -241,7 +220,7 @@ def check_case(st, widths=False):
     if why:
         return why, case, None
     proj, body, lines = parsed
-    exp = expected_projection(st, obs['spec'])
+    exp = expected_projection(st, obs)
     drift = None
     # projection: depth, kind, what is shown
     if len(proj) != len(exp):
@@ -351,7 +330,8 @@ def record(check, n, seed):
         proj, body, lines = parsed
         # what each line shows, as node path / target id / error class, by matching reprs
         index = {}
-        collect(tree, obs['spec'], (), index)
+        for pth, sp in obs['prebuilt'][1].by_path.items():
+            index[pth] = payload(sp)
         plines = []
         ok = True
         for d, kind, text in proj:
@@ -380,13 +360,6 @@ def record(check, n, seed):
     if rows:
         check.sample(dict(kind='recorded', text=rows[0]['text'], plan=rows[0]['plan'], lines=rows[0]['lines']), limit=6)
     return len(rows)
-
-
-def collect(tree, spec, path, index):
-    index[path] = payload(spec)
-    for i in range(len(tree['c'])):
-        sub = spec_at(spec, tree, (i + 1,))
-        collect(tree['c'][i], sub, path + (i + 1,), index)
 
 
 def repo_test_stacks(check):
